@@ -537,6 +537,11 @@ func (e errInconclusive) Error() string { return "INCONCLUSIVE: " + e.msg }
 
 const awaitBound = 30 * time.Second
 
+// findingF19: processAccept looks its parent up by id; once the accepted-block window cache
+// (size W) has evicted it, the copy read back from the index has no Accepted value and
+// Chain.AcceptBlock receives a zero accepted parent.
+const findingF19 = "C20-accept-parent-evicted"
+
 type eng struct {
 	ctx  context.Context
 	vm   *snow.VM[*blk, *out, *acc]
@@ -568,11 +573,17 @@ type eng struct {
 
 	// C21
 	unresolved map[ids.ID]bool
+	doomed     map[ids.ID]bool // processing at hand-over, conflicting with the accepted chain, rejection pending
 	finished   bool
 	healthSeen struct{ unhealthy, healthy bool }
 
-	payload uint64
-	labels  map[string]bool
+	// C21 race schedule: the sibling rejections owed for the last accept of a path are deferred
+	deferRejects bool
+	deferred     []ids.ID
+
+	knownF19 bool
+	payload  uint64
+	labels   map[string]bool
 	stepNo  int
 }
 
@@ -585,6 +596,12 @@ func newEngine(st *vstat.Stats, parsedW, acceptedW int, initReady bool, c21 bool
 	gOut := &out{blk: g, Digest: nextDigest('o', digest{}, g.id), Src: "genesis"}
 	gAcc := &acc{out: gOut, AccDigest: nextDigest('a', digest{}, g.id)}
 	ch := &recChain{rec: rec, idx: idx, genesis: g, genOut: gOut, genAcc: gAcc, initReady: initReady}
+	knownF19 := st.Known(findingF19)
+	if knownF19 && acceptedW < 2 {
+		// with a window of 1 the parent is evicted before the accepter can fetch it
+		st.Exclude(findingF19)
+		acceptedW = 2
+	}
 	vm := snow.NewVM[*blk, *out, *acc]("verif", ch)
 	cfg, err := json.Marshal(map[string]any{snow.SnowVMConfigKey: snow.VMConfig{ParsedBlockCacheSize: parsedW, AcceptedBlockWindowCache: acceptedW}})
 	if err != nil {
@@ -609,8 +626,8 @@ func newEngine(st *vstat.Stats, parsedW, acceptedW int, initReady bool, c21 bool
 	e := &eng{
 		ctx: ctx, vm: vm, ch: ch, rec: rec, idx: idx, st: st, c21: c21, winW: acceptedW,
 		blocks: map[ids.ID]*mblk{}, D: map[ids.ID]digest{}, AD: map[ids.ID]digest{},
-		nVerCount: map[ids.ID]int{}, unresolved: map[ids.ID]bool{}, labels: map[string]bool{},
-		ready: initReady,
+		nVerCount: map[ids.ID]int{}, unresolved: map[ids.ID]bool{}, doomed: map[ids.ID]bool{}, labels: map[string]bool{},
+		ready: initReady, knownF19: knownF19,
 	}
 	e.blocks[g.id] = &mblk{b: g, st: sAccepted, verified: initReady, h: vm.LastAcceptedBlock(ctx)}
 	e.D[g.id], e.AD[g.id] = gOut.Digest, gAcc.AccDigest
@@ -848,7 +865,18 @@ func (e *eng) await() error {
 	}
 	deadline := time.Now().Add(awaitBound)
 	want := e.baseNAcc + len(e.expAcc)
+	var tipSince time.Time
 	for i := 0; e.rec.nAccLen() < want; i++ {
+		// positive evidence instead of a bare timeout: the accepter publishes the executed tip
+		// after it has notified the subscribers, so once the executed tip is the engine's last
+		// accepted block (plus a grace period) no further notification can be on its way
+		if a, err := e.ch.ci.GetLastAccepted(e.ctx); err == nil && a != nil && a.out != nil && a.blk != nil && a.id == e.last {
+			if tipSince.IsZero() {
+				tipSince = time.Now()
+			} else if time.Since(tipSince) > 3*time.Second {
+				return fmt.Errorf("the accepter finished executing the engine's last accepted block %s but only %d of %d accepted notifications were delivered", e.blocks[e.last].b, e.rec.nAccLen()-e.baseNAcc, len(e.expAcc))
+			}
+		}
 		if time.Now().After(deadline) {
 			return errInconclusive{fmt.Sprintf("accepted notifications did not arrive within %s (%d of %d)", awaitBound, e.rec.nAccLen()-e.baseNAcc, len(e.expAcc))}
 		}
@@ -859,6 +887,26 @@ func (e *eng) await() error {
 		}
 	}
 	return e.checkAccepts(e.rec.snap(), true)
+}
+
+func (e *eng) awaitExecutedTip() error {
+	deadline := time.Now().Add(awaitBound)
+	for {
+		a, err := e.ch.ci.GetLastAccepted(e.ctx)
+		if err != nil {
+			return fmt.Errorf("ConsensusIndex.GetLastAccepted failed in normal operation: %w", err)
+		}
+		if a != nil && a.out != nil && a.blk != nil && a.id == e.last {
+			if a.AccDigest != e.AD[a.id] || a.Digest != e.D[a.id] {
+				return fmt.Errorf("ConsensusIndex.GetLastAccepted = %s does not carry the state of executing the accepted chain (want d=%s a=%s)", a, e.D[a.id], e.AD[a.id])
+			}
+			return nil
+		}
+		if time.Now().After(deadline) {
+			return errInconclusive{fmt.Sprintf("executed tip %s did not reach the engine's last accepted block within %s", a, awaitBound)}
+		}
+		time.Sleep(50 * time.Microsecond)
+	}
 }
 
 // sweep: lookups by id and by height must return the engine's accepted chain at
@@ -1065,8 +1113,11 @@ func (e *eng) reject(id ids.ID) error {
 		e.expPreRj = append(e.expPreRj, id)
 	}
 	delete(e.unresolved, id)
-	if err := e.checkRejects(e.rec.snap()); err != nil {
-		return err
+	delete(e.doomed, id)
+	if !e.c21 {
+		if err := e.checkRejects(e.rec.snap()); err != nil {
+			return err
+		}
 	}
 	if e.c21 {
 		if err := e.checkHealth(fmt.Sprintf("after Reject(%s)", m.b)); err != nil {
@@ -1085,12 +1136,19 @@ func (e *eng) reject(id ids.ID) error {
 
 // acceptOne accepts the child id of the last accepted block and rejects its
 // siblings transitively, as snowman does.
-func (e *eng) acceptOne(id ids.ID) error {
+func (e *eng) acceptOne(id ids.ID, lastOfPath bool) error {
 	m := e.blocks[id]
-	if e.ready && e.held && e.engAcc-(e.rec.nAccLen()-e.baseNAcc) >= 12 {
+	if e.ready && e.held && len(e.expAcc)-(e.rec.nAccLen()-e.baseNAcc) >= 12 {
 		e.ch.release()
 		e.held = false
 		e.label("auto-release")
+	}
+	if e.ready && e.knownF19 {
+		// known finding C20-accept-parent-evicted: exclude exactly the class "more than W-2
+		// accepted blocks still unprocessed when the engine accepts the next one"
+		if err := e.limitBacklog(e.winW - 2); err != nil {
+			return err
+		}
 	}
 	if err := m.h.Accept(e.ctx); err != nil {
 		return fmt.Errorf("Accept(%s) failed: %w", m.b, err)
@@ -1124,6 +1182,10 @@ func (e *eng) acceptOne(id ids.ID) error {
 	parent.children = nil
 	for _, c := range sibs {
 		if c != id && e.blocks[c].st == sProcessing {
+			if e.deferRejects && lastOfPath {
+				e.deferred = append(e.deferred, c)
+				continue
+			}
 			if err := e.reject(c); err != nil {
 				return err
 			}
@@ -1132,9 +1194,62 @@ func (e *eng) acceptOne(id ids.ID) error {
 	return nil
 }
 
+// rejectOrder lists the blocks and their processing descendants, parent first.
+func (e *eng) rejectOrder(roots []ids.ID) []ids.ID {
+	var out []ids.ID
+	var walk func(id ids.ID)
+	walk = func(id ids.ID) {
+		if e.blocks[id].st != sProcessing {
+			return
+		}
+		out = append(out, id)
+		for _, c := range e.blocks[id].children {
+			walk(c)
+		}
+	}
+	for _, r := range roots {
+		walk(r)
+	}
+	return out
+}
+
+// markRejected is the model bookkeeping of a Reject issued elsewhere.
+func (e *eng) markRejected(id ids.ID) {
+	m := e.blocks[id]
+	m.st = sRejected
+	e.removeProcessing(id)
+	delete(e.unresolved, id)
+	delete(e.doomed, id)
+}
+
+func (r *recorder) accCallsLen() int {
+	r.mu.Lock()
+	defer r.mu.Unlock()
+	return len(r.accCalls)
+}
+
+func (e *eng) limitBacklog(max int) error {
+	if len(e.expAcc)-e.rec.accCallsLen() <= max {
+		return nil
+	}
+	e.st.Exclude(findingF19)
+	if e.held {
+		e.ch.release()
+		e.held = false
+	}
+	deadline := time.Now().Add(awaitBound)
+	for len(e.expAcc)-e.rec.accCallsLen() > max {
+		if time.Now().After(deadline) {
+			return errInconclusive{"accept backlog did not shrink"}
+		}
+		time.Sleep(20 * time.Microsecond)
+	}
+	return nil
+}
+
 func (e *eng) acceptPath(path []ids.ID) error {
-	for _, id := range path {
-		if err := e.acceptOne(id); err != nil {
+	for i, id := range path {
+		if err := e.acceptOne(id, i == len(path)-1); err != nil {
 			return err
 		}
 	}
@@ -1237,6 +1352,12 @@ func (e *eng) step(o op) (bool, error) {
 		}
 		if o.Inv {
 			e.label("invalid-verify")
+		}
+		// snowman: a block added on top of the preferred tip becomes the preference
+		if m.st == sProcessing && parent == e.pref {
+			if err := e.setPref(m.b.id); err != nil {
+				return false, err
+			}
 		}
 	case "pk":
 		// parse a block that is already known (processing, accepted, rejected, failed or built)
@@ -1358,6 +1479,11 @@ func (e *eng) checkHealth(when string) error {
 	}
 	_, err := e.vm.HealthCheck(e.ctx)
 	want := len(e.unresolved) > 0
+	if !want && len(e.doomed) > 0 {
+		// blocks that conflict with the accepted chain and whose rejection the engine still owes
+		// cannot be re-verified against the accepted state at all: either answer is fine
+		return nil
+	}
 	if want {
 		e.healthSeen.unhealthy = true
 	} else if e.healthSeen.unhealthy {
